@@ -12,12 +12,17 @@ func init() {
 			{Name: "cache-concurrent", Pkg: "planner", Files: []string{"planner/c14.go"}, Entry: "VerifCacheConcurrent", Mode: "all", Race: true, Native: true,
 				Reach:     []string{"concurrent plans"},
 				Functions: []string{"planner.(*CachedPlanner).Plan", "planner.(*CachedPlanner).clean"}},
+			{Name: "cache-through-gateway", Pkg: ".", Files: []string{"root/fed.go", "root/c01.go", "root/c14g.go"}, Entry: "VerifCacheGateway", Mode: "seq", Native: true,
+				Quick: map[string]int{"hmax": 2}, Thorough: map[string]int{"hmax": 3},
+				Reach:     []string{"history through the gateway"},
+				Functions: []string{"(*Gateway).queryHandler", "planner.(*CachedPlanner).Plan", "planner.(*CachedPlanner).hash", "planner.SequentialPlanner.Plan", "executor.ParallelExecutor.Execute", "planner.ScrubFields.Clean"}},
 			{Name: "subscriptions-on-cached-plan", Pkg: ".", Files: []string{"root/fed.go", "root/c01.go", "root/ws.go", "root/c17.go"}, Entry: "VerifEvents", Mode: "seq",
 				Quick: map[string]int{"cached": 1, "maxsubs": 2, "maxevents": 1, "quickmerge": 0}, Thorough: map[string]int{"cached": 1, "maxsubs": 2, "maxevents": 2, "quickmerge": 0},
 				Reach: []string{"two subscriptions", "events checked"},
 				Functions: []string{"(*Gateway).newSubscriptionEntry", "planner.(*CachedPlanner).Plan", "(*subscriptionEntry).Listen", "(*subscriptionEntry).prepareResponse"}},
 		},
 		Assume: []string{
+			"cache-through-gateway: hmax requests from a 7-entry pool (one document with two operations under both names, same selection under another type, id-helper pair, symbolic variable value) on one gateway with the caching planner, each answer compared with the single-server reference",
 			"subscriptions-on-cached-plan: the C17 event kernel (websocket model, canonical schedule) with the caching planner installed",
 			"time.Now is a symbolic monotone clock (every reading >= the previous one); TTL in {0, 1, 10} ns",
 			"gqlparser runs natively on the concrete operation strings of the pool; sha1 runs natively on concrete input",
